@@ -173,7 +173,8 @@ func c15Probe(c seqCache, r *SeqRun) {
 func c15Seq(tier string) []SeqJob {
 	var out []SeqJob
 	mk := func(name string, sb, depth int, secs float64) {
-		a0 := []Op{{K: "set", Key: 1, Cost: 1}, {K: "del", Key: 1}, {K: "clear"}, {K: "close"}, {K: "setttl", Key: 1, Cost: 1, TTL: 1000}, {K: "set", Key: 257, Cost: 1}, {K: "get", Key: 1}}
+		a0 := []Op{{K: "set", Key: 1, Cost: 1}, {K: "del", Key: 1}, {K: "clear"}, {K: "close"}, {K: "setttl", Key: 1, Cost: 1, TTL: 1000}, {K: "set", Key: 257, Cost: 1}, {K: "get", Key: 1},
+			{K: "advance", N: 3000}} // so that expired-but-unswept TTL entries are resident at the Clear / Close
 		a1 := []Op{{K: "wait"}}
 		spec := &SeqSpec{Cfg: Cfg{NumCounters: 16, MaxCost: 2, BufferItems: 2, SetBuf: sb, Metrics: true, TTLTick: 2, BucketSecs: 1}, MaxDepth: depth, Clients: 2,
 			Alphabet:  func(r *SeqRun) []Op { return a0 },
